@@ -408,6 +408,24 @@ int main(int argc, char** argv) {
     // larger k merged into smaller k exercises the down-sampling merge (raw uniform offset): base k=4 with k=2 operand and vice versa
     Cfg c4; c4.k = 4; std::vector<Cfg> oc4; oc4.push_back(c);
     family_tasks<F>(tasks, cfg, "classic-int", c4, oc4, q ? 8 : 12, q ? 24 : 40, 9, q ? 12 : 17, q ? 60 : 90); }
+  // classic down-sampling merges with a k ratio of 4 and 8 whose larger-k side is in estimation mode (n > 2k): the offset of the
+  // stride is a raw draw over [0, ratio); both directions and by rvalue
+  { typedef ClassicFam<int, std::less<int> > F;
+    const int rk[][4] = {{2, 8, 5, 19}, {2, 8, 9, 35}, {4, 16, 9, 37}, {2, 16, 3, 35}, {4, 32, 5, 67}};
+    for (int ri = 0; ri < (q ? 3 : 5); ++ri) for (int form = 0; form < 3; ++form) {
+      Cfg ca; ca.k = rk[ri][0]; Cfg cb; cb.k = rk[ri][1]; const int na = rk[ri][2], nb = rk[ri][3];
+      QuantSys<F> sys; sys.slot_cfgs.push_back(ca); sys.slot_cfgs.push_back(cb); sys.light_check = true; sys.check_published = true;
+      std::vector<std::string> vn; distinct_domain(sys, 2 * std::max(na, nb) + 6, vn);
+      sys.add_update_ops(0, false); sys.add_update_ops(1, false); sys.add_slot_merge_ops(0, 1); sys.add_slot_merge_ops(1, 0);
+      sys.nm = "classic-int/k" + str(ca.k) + "/merge-ratio" + str(cb.k / ca.k) + "/k" + str(cb.k) + "/n" + str(na) + "+" + str(nb) + (form == 0 ? "/A.merge(B)" : form == 1 ? "/A.merge(move(B))" : "/B.merge(A)");
+      std::vector<std::string> seq = shape("mixed", na, 0, vn, 0, 2), s2 = shape("zigzag", nb, 1, vn, 1, 2);
+      seq.insert(seq.end(), s2.begin(), s2.end());
+      seq.push_back(form == 0 ? "M01" : form == 1 ? "R01" : "M10");
+      const int slot = form == 2 ? 1 : 0;
+      for (int e = 0; e < 2; ++e) seq.push_back("U" + str(slot) + ":" + vn[vn.size() - 1 - 2 * e]);
+      const size_t from = seq.size() - 2;
+      Task t; t.name = sys.nm; t.fn = [sys, seq, slot, from, &cfg](Report& rep) { fixed_history<F>(sys, seq, slot, from, rep, cfg); }; tasks.push_back(t);
+    } }
   // long streams
   const int S = q ? 48 : 512, N = q ? 20000 : 100000;
   for (int ki = 0; ki < 3; ++ki) {
